@@ -140,6 +140,79 @@ def barycentric(P, rep, rule="EXPR.barycentric"):
                       key=rule + "|interpolant", witness="three value points spanning a plane; query at a vertex and at the centroid")
     else:
         rep.ok(rule, "interpolant(x_i, y_i) = v_i for i = 0,1,2 and is affine in (x, y)", F.loc, F.qn)
+    # the acceptance test: the closed triangle, widened only by slack of the order of machine epsilon
+    EPS = sp.Symbol("EPS", positive=True)
+
+    def hook_eps(n):
+        if n.get("k") == "CallExpr" and P.d(n.get("callee")).get("qn", "").endswith("numeric_limits<double>::epsilon"):
+            return EPS
+        return hook(n)
+    ifs = [z for z in astq.stmts_of(F.body) if z.get("k") == "IfStmt"]
+    if len(ifs) != 1:
+        rep.unknown(rule, "in_triangle: %d top-level tests" % len(ifs))
+    else:
+        symt = norm.Sym(P, F, inline_locals=True, hook=hook_eps)
+        conj = []
+
+        def split(c):
+            c = sc(c)
+            if c.get("k") == "BinaryOperator" and c.get("op") == "&&":
+                split(c["c"][0]); split(c["c"][1])
+            else:
+                conj.append(c)
+        split(ifs[0]["c"][0])
+        margins = []       # expressions required to be >= 0
+        okc = True
+        for c in conj:
+            if not (c.get("k") == "BinaryOperator" and c.get("op") in (">=", "<=", ">", "<")):
+                okc = False
+                continue
+            l, r = symt(c["c"][0]), symt(c["c"][1])
+            margins.append(sp.expand(l - r) if c["op"] in (">=", ">") else sp.expand(r - l))
+        A = pre[6]
+        V = [{x: T[(i, 0)], y: T[(i, 1)]} for i in range(3)]
+        exact = [sp.expand(m_.subs(EPS, 0)) for m_ in margins]
+        slack = [sp.expand(m_ - e_) for m_, e_ in zip(margins, exact)]
+        # exact parts: three functions, each zero at two vertices and equal to the doubled area at the third, one per vertex
+        hit = set()
+        for e_ in exact:
+            vals = [sp.simplify(e_.subs(v)) for v in V]
+            z = [i for i, v_ in enumerate(vals) if v_ == 0]
+            nz = [i for i, v_ in enumerate(vals) if v_ != 0]
+            if len(z) == 2 and len(nz) == 1 and sp.simplify(vals[nz[0]] - A) == 0 and sp.Poly(e_, x, y).total_degree() <= 1:
+                hit.add(nz[0])
+            else:
+                okc = False
+        def vanishes(sl):
+            try:
+                return sp.simplify(sl.subs(EPS, 0)) == 0
+            except Exception:
+                return False
+        slack_ok = all(sl == 0 or (sl.has(EPS) and vanishes(sl)) for sl in slack)
+        big = []
+        for sl in slack:
+            if sl != 0 and sl.has(EPS) and vanishes(sl):
+                try:
+                    co = sp.Poly(sl, EPS).coeff_monomial(EPS)
+                    num = [abs(float(c_)) for c_ in sp.Poly(sp.expand(co), *sorted(co.free_symbols, key=str)).coeffs()] if co.free_symbols else [abs(float(co))]
+                except Exception:
+                    rep.unknown(rule, "in_triangle: tolerance `%s` is not a polynomial in machine epsilon" % str(sl)[:60])
+                    continue
+                if sp.Poly(sl, EPS).degree() != 1 or max(num) > 1e6:
+                    big.append(co)
+        if okc and hit == {0, 1, 2} and slack_ok and not big and len(margins) == 3:
+            rep.ok(rule, "in_triangle accepts exactly the closed triangle (three barycentric weights >= 0) widened by slack proportional to machine epsilon", F.nloc(ifs[0]), F.qn)
+        else:
+            why = []
+            if not (okc and hit == {0, 1, 2} and len(margins) == 3):
+                why.append("with the tolerances set to zero the test is not `all three barycentric weights >= 0`")
+            if not slack_ok:
+                why.append("a tolerance does not vanish with machine epsilon (%s)" % "; ".join(str(sl)[:40] for sl in slack if not (sl == 0 or (sl.has(EPS) and vanishes(sl)))))
+            if big:
+                why.append("slack coefficient above 1e6 epsilon")
+            rep.violation(rule, "in_triangle acceptance test: %s" % "; ".join(why), F.nloc(ifs[0]), F.qn, norm.render(P, ifs[0]["c"][0])[:200],
+                          "points outside a triangle are interpolated (extrapolated) by it: the value leaves the range of the nodal values",
+                          key=rule + "|accept", witness="value points closer together than the tolerance allows for (spherical coordinates are in radians)")
     # vertex pairing in the constructor
     R = lambda n: norm.render(P, n, nocast=True).replace(" ", "")
     okv = True
@@ -177,6 +250,91 @@ def barycentric(P, rep, rule="EXPR.barycentric"):
     else:
         rep.violation(rule, "Surface minimum/maximum are not the min/max over all nodal values", C.loc, C.qn, "", "pre-test bounds do not enclose the surface", key=rule + "|minmax",
                       witness="value points whose extreme value is listed last")
+
+
+def point_kernels(P, rep, rule="EXPR.point"):
+    """closed forms of the distance kernels of Point<dim>"""
+    rep.rule(rule, "Point::distance(q) is sqrt((p0-q0)^2+(p1-q1)^2) in Cartesian and the haversine angle 2 asin(sqrt(h)), h = sin^2(dlat/2) + "
+                   "sin^2(dlon/2) cos(lat_p) cos(lat_q), in spherical coordinates; cheap_relative_distance_cartesian/_spherical are the squared "
+                   "Cartesian distance and h (FT::sin/FT::cos taken as sin/cos); norm_square is the sum of squares of all dim components. These are "
+                   "symmetric, translation/rotation invariant resp. invariant under a common longitude shift")
+    p = sp.symbols("p0 p1 p2", real=True)
+    q = sp.symbols("q0 q1 q2", real=True)
+    hav = sp.sin((q[1] - p[1]) / 2) ** 2 + sp.sin((q[0] - p[0]) / 2) ** 2 * sp.cos(p[1]) * sp.cos(q[1])
+    cart2 = (p[0] - q[0]) ** 2 + (p[1] - q[1]) ** 2
+    n = 0
+
+    def evaluate(F, spherical):
+        qk = F.params[0] if F.params else None
+
+        def hook(nd):
+            sub = astq.subscript(nd)
+            if sub and sc(sub[1]).get("k") == "IntegerLiteral":
+                b = sc(sub[0])
+                if qk is not None and astq.is_ref_to(b, qk):
+                    return q[sc(sub[1])["v"]]
+                if b.get("k") == "MemberExpr" and b.get("n") == "point" and astq.is_this_field(P, b):
+                    return p[sc(sub[1])["v"]]
+            if nd.get("k") == "CallExpr":
+                qn = P.d(nd.get("callee")).get("qn", "")
+                if qn in ("WorldBuilder::FT::sin", "WorldBuilder::FT::cos") and len(nd["c"]) == 2:
+                    return (sp.sin if qn.endswith("sin") else sp.cos)(B.sym(nd["c"][1]))
+            return None
+
+        def choose(c):
+            t = norm.render(P, c, nocast=True).replace(" ", "")
+            if "spherical" in t and "==" in t:
+                return spherical
+            return None
+        B = Block(P, F, choose=choose, hook=hook)
+        B.sym.inline_locals = True
+        # straight-line: take the first return reached
+        def first_return(stmts):
+            for st in stmts:
+                k = st.get("k")
+                if k == "ReturnStmt":
+                    return B.sym(st["c"][0])
+                if k == "CompoundStmt":
+                    r = first_return(st["c"])
+                    if r is not None:
+                        return r
+                elif k == "IfStmt":
+                    c = choose(st["c"][0])
+                    if c is None:
+                        raise AnalysisBroken("%s: undecided branch %s" % (F.qn, norm.render(P, st["c"][0])[:60]))
+                    br = st["c"][1] if c else (st["c"][2] if len(st["c"]) > 2 else None)
+                    if br is not None:
+                        r = first_return([br])
+                        if r is not None:
+                            return r
+                else:
+                    B.stmt(st)
+            return None
+        return first_return(astq.stmts_of(F.body))
+
+    def verdict(F, label, got, want, witness):
+        nonlocal n
+        n += 1
+        if got is not None and eq(got, want):
+            rep.ok(rule, "%s = %s" % (label, str(want)[:70]), F.loc, F.qn)
+        else:
+            rep.violation(rule, "%s returns %s" % (label, str(got)[:120]), F.loc, F.qn, str(got)[:200], "expected %s" % str(want)[:120],
+                          key="%s|%s" % (rule, label), witness=witness)
+    for F in sorted(P.funcs.values(), key=lambda f: f.key):
+        if F.body is None or not re.match(r"^WorldBuilder::Point<\d>::", F.qn):
+            continue
+        dim = int(F.qn[len("WorldBuilder::Point<")])
+        nm = F.name
+        if nm == "distance":
+            verdict(F, "Point<%d>::distance [cartesian]" % dim, evaluate(F, False), sp.sqrt(cart2), "an east-west trench with the dip point to its north")
+            verdict(F, "Point<%d>::distance [spherical]" % dim, evaluate(F, True), 2 * sp.asin(sp.sqrt(hav)), "two points at different latitudes")
+        elif nm == "cheap_relative_distance_cartesian":
+            verdict(F, "Point<%d>::cheap_relative_distance_cartesian" % dim, evaluate(F, False), cart2, "points differing in y only")
+        elif nm == "cheap_relative_distance_spherical":
+            verdict(F, "Point<%d>::cheap_relative_distance_spherical" % dim, evaluate(F, True), hav, "points at different latitudes")
+        elif nm == "norm_square":
+            verdict(F, "Point<%d>::norm_square" % dim, evaluate(F, False), sum(p[i] ** 2 for i in range(dim)), "a vector with a non-zero last component")
+    rep.floor(rule, n, 6, "Point kernels")
 
 
 def merge_structure(P, rep, rule="MERGE"):
